@@ -340,6 +340,54 @@ def bisect_unsorted(model: Model, fn: FunctionInfo) -> list[Lint]:
     return out
 
 
+def iterable_param_reuse(model: Model, fn: FunctionInfo) -> list[Lint]:
+    """A parameter annotated ``Iterable`` / ``Iterator`` (callers may pass a generator) is consumed twice - or
+    inside a loop - before the function has materialised it: the second consumer sees it exhausted."""
+    out: list[Lint] = []
+    for p in fn.params:
+        if p.annotation is None:
+            continue
+        ann = ast.unparse(p.annotation)
+        import re as _re
+
+        outer = _re.search(r"\b(Iterable|Iterator|Sequence|Collection|Mapping|list|List|set|Set|dict|Dict|tuple|Tuple|frozenset|str)\b", ann)
+        if outer is None or outer.group(1) not in ("Iterable", "Iterator"):
+            continue
+        rebinds = [n.lineno for n in ast.walk(fn.node) if isinstance(n, ast.Name) and n.id == p.name and isinstance(n.ctx, ast.Store)]
+        first_rebind = min(rebinds, default=10**9)
+        skip = set()
+        for n in ast.walk(fn.node):
+            # tests that do not consume: isinstance(x, ..), x is None, bool context of the bare name
+            if isinstance(n, ast.Call) and isinstance(n.func, ast.Name) and n.func.id in ("isinstance", "id", "type", "callable", "hasattr") and n.args and isinstance(n.args[0], ast.Name):
+                skip.add(id(n.args[0]))
+            if isinstance(n, ast.Compare) and isinstance(n.left, ast.Name) and all(isinstance(o, (ast.Is, ast.IsNot)) for o in n.ops):
+                skip.add(id(n.left))
+            if isinstance(n, (ast.If, ast.While, ast.IfExp)) and isinstance(n.test, ast.Name):
+                skip.add(id(n.test))
+            if isinstance(n, ast.UnaryOp) and isinstance(n.op, ast.Not) and isinstance(n.operand, ast.Name):
+                skip.add(id(n.operand))
+            if isinstance(n, ast.BoolOp):
+                for v in n.values[:-1]:
+                    if isinstance(v, ast.Name):
+                        skip.add(id(v))
+        u = _Uses(p.name)
+        for st in fn.node.body:
+            u.visit(st)
+        uses = [(node, stack) for node, stack in u.uses if id(node) not in skip and (node.lineno < first_rebind or (node.lineno == first_rebind))]
+        # the rebinding statement itself (`xs = sorted(xs)`) is one legitimate consumption
+        in_loop = [(node, stack) for node, stack in uses if any(not isinstance(l, (ast.FunctionDef, ast.AsyncFunctionDef)) or True for l in stack) and stack]
+        if in_loop:
+            node, stack = in_loop[0]
+            what = "loop" if isinstance(stack[0], (ast.For, ast.While, ast.AsyncFor)) else ("closure" if isinstance(stack[0], (ast.FunctionDef, ast.Lambda, ast.AsyncFunctionDef)) else "comprehension")
+            out.append(Lint("iterable-param", fn, node.lineno, p.name, f"parameter `{p.name}` is declared `{ann}` - a caller may pass a generator - but is consumed inside a {what} that runs repeatedly (line {node.lineno}): after the first round it is exhausted"))
+        elif len(uses) > 1:
+            pairs = [(a, b) for i, (a, _) in enumerate(uses) for b, _ in uses[i + 1 :] if not _exclusive(fn.node, a, b)]
+            if pairs:
+                a, b = pairs[0]
+                out.append(Lint("iterable-param", fn, b.lineno, p.name, f"parameter `{p.name}` is declared `{ann}` - a caller may pass a generator - and is consumed at line {a.lineno} and again at line {b.lineno} without having been materialised: the second consumer sees it exhausted (elements are lost or the result is empty)"))
+    return out
+
+
 SIZE_CHANGERS = {"remove", "pop", "insert", "append", "extend", "clear", "popitem", "discard", "add", "update", "setdefault", "sort", "reverse"}
 
 
@@ -402,4 +450,5 @@ def scan(model: Model, files: set[str] | None = None) -> tuple[list[Lint], int]:
         out += mutable_defaults(model, fn)
         out += bisect_unsorted(model, fn)
         out += mutate_while_iterating(model, fn)
+        out += iterable_param_reuse(model, fn)
     return out, n
